@@ -138,7 +138,8 @@ def run_one(ctx, idx, ops, k, ending):
                     for l_, e_ in zip(s.lines[n0:], s.expect[n0:]):
                         if l_.get("op") == "step":
                             lines.append(dict(l_, m="life", op="api"))
-                            expect.append({"out": "ok" if e_["out"] == "ok" else "refused", "tree": e_["tree"], "mode": "rw"})
+                            # one API call may take several model steps (remove_all): only the last carries the tree
+                            expect.append({"out": "ok" if e_["out"] == "ok" else "refused", "tree": e_.get("tree"), "mode": "rw"})
                     done += 1
                 held = [e for e in s.entities()]
                 live = s.snap()
@@ -212,7 +213,7 @@ def compare(ctx, recs):
                 ctx.disagree(r["case"], f"Life outcome of {line.get('op')}/{line.get('o')}: model {out['out']}/{out['mode']} impl {exp['out']}/{exp['mode']}")
                 broke = True
                 continue
-            d = wsh.tree_diff(wsh.canon_tree(out["tree"]), exp["tree"])
+            d = wsh.tree_diff(wsh.canon_tree(out["tree"]), exp["tree"]) if exp["tree"] is not None else None
             if d:
                 ctx.disagree(r["case"], f"Life tree after {line.get('op')}/{line.get('o')}: {d}")
                 broke = True
